@@ -1,7 +1,7 @@
 """Shared pieces of the filter-text properties (C13, C14, C15)."""
 from __future__ import annotations
 
-from lib import msgs
+from lib import msgs, purity
 from lib.framework import Timeout, canon, exc_code
 
 
@@ -15,7 +15,10 @@ def parse_impl(text: str):
     from sansldap._filter import FilterSyntaxError
 
     try:
-        f = sansldap.LDAPFilter.from_string(text)
+        # parsed twice, the first result scrambled in between (lib/purity.py): from_string is a function of the text
+        return [0, purity.twice(lambda: sansldap.LDAPFilter.from_string(text), msgs.r_filter)]
+    except purity.Impure as e:
+        return [2, "impure: " + str(e)]
     except Timeout:
         raise
     except FilterSyntaxError as e:
@@ -24,7 +27,6 @@ def parse_impl(text: str):
         if isinstance(e, (KeyboardInterrupt, SystemExit)):
             raise
         return [2, exc_code(e)]
-    return [0, msgs.r_filter(f)]
 
 
 def attrs_of(f):
